@@ -269,12 +269,12 @@ func ClaimsDomain() *Domain {
 // revisionHistoryLimit) and decoded into the typed object; optionally client-side defaulting
 // is applied. Pod populations over ordinals 0..2 include the fully rolled out healthy set.
 //
-//	dims: strategy shape(9), rollingUpdate shape(6), policy(4), selector(3), slots annotation(6), status shape(5), nclaims(2),
+//	dims: strategy shape(9), rollingUpdate shape(6), policy(4), selector(4), slots annotation(6), status shape(5), nclaims(2),
 //	      defaulting(2), replicas(0..2), 3 pods x (absent, healthy@upd, healthy@old, pending@upd, failed@upd)
 var admStrategyTypes = []interface{}{nil, "", "RollingUpdate", "OnDelete", "Junk"}
 
 func AdmittedDomain() *Domain {
-	dims := []int{6, 6, 4, 3, 6, 5, 2, 2, 3, 5, 5, 5, 3}
+	dims := []int{6, 6, 4, 4, 6, 5, 2, 2, 3, 5, 5, 5, 3}
 	d := &Domain{Name: "admitted(CRD lattice x 3 ordinals + a pod at the largest ordinal)", Dims: dims}
 	d.Make = func(ix []int) *Scenario {
 		sc := &Scenario{Dom: ix}
@@ -296,6 +296,9 @@ func AdmittedDomain() *Domain {
 			case 4:
 				sc.Pods = append(sc.Pods, PodSpec{Ord: o, Phase: "Failed", Rev: "t2.0", Owner: "self"})
 			}
+		}
+		if ix[3] == 3 {
+			s.Tmpl = "t4"
 		}
 		// status shapes 3 and 4: the status a finished reconcile leaves behind (exact census; 3: roll-out complete), but
 		// without the optional collisionCount - a set at rest whose status the controller has nothing to add to
@@ -353,6 +356,9 @@ func AdmittedDomain() *Domain {
 				spec["selector"] = map[string]interface{}{}
 			case 2:
 				spec["selector"] = map[string]interface{}{"matchExpressions": []interface{}{map[string]interface{}{"key": "app", "operator": "Bogus"}}}
+			case 3:
+				// the schema validates neither selector nor template: an empty selector over a template without labels (t4)
+				spec["selector"] = map[string]interface{}{}
 			}
 			meta := m["metadata"].(map[string]interface{})
 			ann := map[string]interface{}{}
